@@ -110,76 +110,96 @@ Section Dop853.
     Variable cb : H -> F -> F -> vec -> option (vec * F * F) -> H * flag F * vec.
     Variable kern : F -> vec -> vec -> F -> attempt.
 
+    Definition facc1 := one O / p_scale_min P.
+    Definition facc2 := one O / p_scale_max P.
+    Definition expo1 := L L1_8 - p_beta P * L L0_2.
+
+    Definition landing (x h : F) (last : bool) : F * bool :=
+      if ((x + L L1_01 * h - xend) * posneg) >? zero O then (xend - x, true) else (h, last).
+
+    Definition hnew_of (h err facold : F) : F :=
+      let fac11 := pow O err expo1 in
+      let fac := fac11 / pow O facold (p_beta P) in
+      let fac := fmax O facc2 (fmin O facc1 (fac / p_safety P)) in
+      h / fac.
+    Definition hnew_reject (h err : F) : F :=
+      h / fmin O facc1 (pow O err expo1 / p_safety P).
+    Definition hnew_clamp (hnew h : F) (reject : bool) : F :=
+      let hnew := if abs O hnew >? abs O hmax then posneg * abs O hmax else hnew in
+      if reject then posneg * fmin O (abs O hnew) (abs O h) else hnew.
+
+    Definition stiff_test (s : state H) (h : F) (a : attempt) (k13 : vec) (st0 : stats) : F * N * N * bool :=
+      let do_stiff := N.eqb (N.modulo (naccpt st0) (p_nstiff P)) 0 || N.ltb 0 (s_iasti s) in
+      let k12 := nth 11 (at_ks a) [] in
+      if do_stiff then
+        let stnum := fold_left (fun acc p => let d1 := fst p - snd p in acc + d1 * d1)
+                               (combine k13 k12) (zero O) in
+        let stden := fold_left (fun acc p => let d2 := fst p - snd p in acc + d2 * d2)
+                               (combine (at_ynew a) (at_y1_12 a)) (zero O) in
+        let hlamb := if stden >? zero O then abs O h * sqrt O (stnum / stden) else s_hlamb s in
+        if hlamb >? L L6_1 then
+          let iasti := (s_iasti s + 1)%N in
+          (hlamb, 0%N, iasti, N.eqb iasti 15)
+        else
+          let nonstiff := (s_nonstiff s + 1)%N in
+          (hlamb, nonstiff, if N.eqb nonstiff 6 then 0%N else s_iasti s, false)
+      else (s_hlamb s, s_nonstiff s, s_iasti s, false).
+
+    Definition after_flag (fl : flag F) (xph : F) (ycb k13 : vec) (st0 : stats) (log : list (F * vec))
+      : vec * stats * list (F * vec) :=
+      match fl with
+      | ModifiedSolution => (f xph ycb, add_fev st0 1, (xph, ycb) :: log)
+      | _ => (k13, st0, log)
+      end.
+
+    (* the three extra dense-output stages are computed only when an interpolant is wanted *)
+    Definition dense_stage (x h : F) (y : vec) (a : attempt) (k13 : vec) (st0 : stats) (log : list (F * vec))
+      : vec * stats * list (F * vec) :=
+      if p_dense P then
+        let '(cont, dcalls) := finish_dense f x h y a k13 in
+        (cont, add_fev st0 (N.of_nat (length dcalls)), rev_append dcalls log)
+      else ([], st0, log).
+
     Definition step (s : state H) : state H + result H :=
-      let x := s_x s in let y := s_y s in let h := s_h s in
-      let facc1 := one O / p_scale_min P in
-      let facc2 := one O / p_scale_max P in
-      let expo1 := L L1_8 - p_beta P * L L0_2 in
+      let x := s_x s in let y := s_y s in
       if N.ltb (p_max_steps P) (nstep (s_stats s)) then
-        inr (mkR NeedLargerNMax h (s_stats s) x y (s_log s) (s_cb s))
-      else if (L L0_1 * abs O h) <=? (abs O x * p_uround P) then
-        inr (mkR StepSizeTooSmall h (s_stats s) x y (s_log s) (s_cb s))
+        inr (mkR NeedLargerNMax (s_h s) (s_stats s) x y (s_log s) (s_cb s))
+      else if (L L0_1 * abs O (s_h s)) <=? (abs O x * p_uround P) then
+        inr (mkR StepSizeTooSmall (s_h s) (s_stats s) x y (s_log s) (s_cb s))
       else
-        let '(h, last) := if ((x + L L1_01 * h - xend) * posneg) >? zero O then (xend - x, true)
-                          else (h, s_last s) in
+        let '(h, last) := landing x (s_h s) (s_last s) in
         let stats := add_step (s_stats s) in
         let a := kern x y (s_k1 s) h in
         let stats := add_fev stats 11 in
         let log := rev_append (at_calls a) (s_log s) in
         let xph := x + h in
         let err := at_err a in
-        let fac11 := pow O err expo1 in
-        let fac := fac11 / pow O (s_facold s) (p_beta P) in
-        let fac := fmax O facc2 (fmin O facc1 (fac / p_safety P)) in
-        let hnew := h / fac in
+        let hnew := hnew_of h err (s_facold s) in
         if err <=? one O then
           let facold := fmax O err (L L1em4) in
           let stats := add_acc stats in
           let k13 := f xph (at_ynew a) in
           let stats := add_fev stats 1 in
           let log := (xph, at_ynew a) :: log in
-          let do_stiff := N.eqb (N.modulo (naccpt stats) (p_nstiff P)) 0 || N.ltb 0 (s_iasti s) in
-          let k12 := nth 11 (at_ks a) [] in
-          let '(hlamb, nonstiff, iasti, stiff_exit) :=
-            if do_stiff then
-              let stnum := fold_left (fun acc p => let d1 := fst p - snd p in acc + d1 * d1)
-                                     (combine k13 k12) (zero O) in
-              let stden := fold_left (fun acc p => let d2 := fst p - snd p in acc + d2 * d2)
-                                     (combine (at_ynew a) (at_y1_12 a)) (zero O) in
-              let hlamb := if stden >? zero O then abs O h * sqrt O (stnum / stden) else s_hlamb s in
-              if hlamb >? L L6_1 then
-                let iasti := (s_iasti s + 1)%N in
-                (hlamb, 0%N, iasti, N.eqb iasti 15)
-              else
-                let nonstiff := (s_nonstiff s + 1)%N in
-                (hlamb, nonstiff, if N.eqb nonstiff 6 then 0%N else s_iasti s, false)
-            else (s_hlamb s, s_nonstiff s, s_iasti s, false) in
+          let '(hlamb, nonstiff, iasti, stiff_exit) := stiff_test s h a k13 stats in
           if stiff_exit then inr (mkR ProbablyStiff h stats x y log (s_cb s))
           else
-            let '(cont, dcalls) := if p_dense P then finish_dense f x h y a k13 else ([], []) in
-            let stats := if p_dense P then add_fev stats 3 else stats in
-            let log := rev_append dcalls log in
+            let '(cont, stats, log) := dense_stage x h y a k13 stats log in
             let '(cbs, fl, ycb) := cb (s_cb s) x xph (at_ynew a)
                                       (if p_dense P then Some (cont, x, h) else None) in
             match fl with
             | Interrupt => inr (mkR UserInterrupt h stats xph ycb log cbs)
             | _ =>
-                let '(k1, stats, log) :=
-                  match fl with
-                  | ModifiedSolution => (f xph ycb, add_fev stats 1, (xph, ycb) :: log)
-                  | _ => (k13, stats, log)
-                  end in
+                let '(k1, stats, log) := after_flag fl xph ycb k13 stats log in
                 if last then inr (mkR Success hnew stats xph ycb log cbs)
                 else
-                  let hnew := if abs O hnew >? abs O hmax then posneg * abs O hmax else hnew in
-                  let hnew := if s_reject s then posneg * fmin O (abs O hnew) (abs O h) else hnew in
-                  inl (mkS xph ycb k1 hnew facold last false nonstiff hlamb iasti stats log cbs)
+                  inl (mkS xph ycb k1 (hnew_clamp hnew h (s_reject s)) facold last false
+                           nonstiff hlamb iasti stats log cbs)
             end
         else
-          let hnew := h / fmin O facc1 (fac11 / p_safety P) in
           let stats := if N.ltb 1 (naccpt stats) then add_rej stats else stats in
-          inl (mkS x y (s_k1 s) hnew (s_facold s) false true (s_nonstiff s) (s_hlamb s) (s_iasti s)
-                   stats log (s_cb s)).
+          inl (mkS x y (s_k1 s) (hnew_reject h err) (s_facold s) false true (s_nonstiff s) (s_hlamb s)
+                   (s_iasti s) stats log (s_cb s)).
 
     Fixpoint loop (fuel : nat) (s : state H) : option (result H) :=
       match fuel with
